@@ -57,7 +57,7 @@ func GenEvolveCase(r *rand.Rand) *EvolveCase {
 		keep = keep[1:]
 	}
 	small.Injectors = keep
-	c := &EvolveCase{Evolve: true, Before: m, After: small, Iter: []string{"asc", "desc", fmt.Sprintf("shuffle:%d", r.IntN(100000))}[r.IntN(3)], Header: r.IntN(5) == 0, Tweak: []string{"", "aliases", "aliases", "tail", "cut"}[r.IntN(5)]}
+	c := &EvolveCase{Evolve: true, Before: m, After: small, Iter: []string{"asc", "desc", fmt.Sprintf("shuffle:%d", r.IntN(100000))}[r.IntN(3)], Header: r.IntN(5) == 0, Tweak: []string{"", "aliases", "aliases", "tail", "cut", "crlf", "reorder"}[r.IntN(7)]}
 	switch r.IntN(4) {
 	case 0:
 		c.Before, c.After = small, m
@@ -141,6 +141,18 @@ func (e *Engine) RunEvolveCase(c *EvolveCase, dir string) *Outcome {
 			case "cut":
 				if i := bytes.Index(data, []byte("\npackage ")); i > 0 {
 					data = data[:i+(len(data)-i)/2]
+				}
+			case "crlf":
+				data = []byte(strings.ReplaceAll(string(data), "\n", "\r\n"))
+			case "reorder":
+				// the same declarations in reverse order
+				parts := strings.Split(string(data), "\n\nfunc ")
+				if len(parts) > 2 {
+					head, funcs := parts[0], parts[1:]
+					for i, j := 0, len(funcs)-1; i < j; i, j = i+1, j-1 {
+						funcs[i], funcs[j] = funcs[j], funcs[i]
+					}
+					data = []byte(head + "\n\nfunc " + strings.Join(funcs, "\n\nfunc "))
 				}
 			}
 			os.WriteFile(path, data, 0666)
